@@ -246,3 +246,72 @@ Proof.
   repeat split; try (vm_compute; reflexivity).
   left. repeat constructor; eexists; split; reflexivity.
 Qed.
+
+(* ================================================================== CSV typing (Model/DataCsv.v) *)
+From BS Require Import Model.Calendar Model.DataCsv Proofs.C19Csv.
+From BS Require Proofs.C16.
+
+(* ---- the round trip.  [ct] gives each column its type; [cell_rt t v]: the cell v of a column of type t round-trips ON ITS OWN
+   (its text is rendered, reads back as v under type t, and determines no other type than t).  Then the two passes of validate_data
+   — type of a field = type of its first determining cell over ALL rows, '' / 'null' determine nothing, undetermined = string —
+   give the whole table back, for any number of rows and fields, rows with different field sets included. *)
+Theorem C19_csv_roundtrip : forall off_utc off_local repr (ct : str -> ftype) T R,
+  table_rt off_utc off_local repr ct T -> render_table off_utc off_local repr T = Some R ->
+  exists types, validate_data off_utc true R = VOk types T /\ forall f t, assoc f types = Some t -> t = ct f \/ t = TString.
+Proof. exact csv_roundtrip. Qed.
+Print Assumptions C19_csv_roundtrip.
+
+(* which cells round-trip on their own: null (written "null") in any column; booleans; strings under the guard the proof forces
+   — not 'null', and empty or not readable as datetime / boolean / number — ; datetimes whose ISO text parses back (C16); numbers
+   whose text reads back (C13) and is not date-shaped *)
+Theorem C19_csv_cell_null : forall off_utc off_local repr t, cell_rt off_utc off_local repr t CNull.
+Proof. exact cell_rt_null. Qed.
+Theorem C19_csv_cell_bool : forall off_utc off_local repr b, cell_rt off_utc off_local repr TBoolean (CBool b).
+Proof. exact cell_rt_bool. Qed.
+Theorem C19_csv_cell_string : forall off_utc off_local repr s,
+  str_unambiguous off_utc s = true -> cell_rt off_utc off_local repr TString (CStr s).
+Proof. exact cell_rt_str. Qed.
+Print Assumptions C19_csv_cell_string.
+(* the guard is needed: *)
+Theorem C19_csv_string_guard_refuted : forall off_utc,
+  validate_data off_utc true [[(U "a", CStr (U "12"))]] = VOk [(U "a", TNumber)] [[(U "a", CNum (NFlt (Z_to_sf 12)))]] /\
+  validate_data off_utc true [[(U "a", CStr (U "x"))]; [(U "a", CStr s_null)]] = VOk [(U "a", TString)] [[(U "a", CStr (U "x"))]; [(U "a", CNull)]].
+Proof. exact str_guard_needed. Qed.
+(* datetimes: every whole-millisecond wall clock that exists in the zone (hypotheses of C16_iso_roundtrip_whole_ms) *)
+Theorem C19_csv_cell_datetime : forall off_utc off_local repr w,
+  in_range w = true -> w mod 1000 = 0 -> exists_in_zone off_local off_utc w = true ->
+  (Z.abs (off_local w) <? 86400) = true -> (off_local w mod 60 =? 0) = true -> in_range (w - off_local w * US_SEC) = true ->
+  cell_rt off_utc off_local repr TDatetime (of_wall w).
+Proof.
+  intros ou ol repr w H1 H2 H3 H4 H5 H6. destruct (BS.Proofs.C16.iso_roundtrip_whole_ms ol ou w H1 H2 H3 H4 H5 H6) as [s [Hf Hp]].
+  exact (cell_rt_date ou ol repr w s Hf Hp).
+Qed.
+Print Assumptions C19_csv_cell_datetime.
+(* full statement wanted: every finite float round-trips (from C13_roundtrip) — missing: that the cleaned repr text is never date-shaped /
+   'true' / 'false' / 'null' / '' (true of every text of C13's grammar repr_ok; not proved), so these are hypotheses here *)
+Theorem C19_csv_cell_number_partial : forall off_utc off_local repr f, let s := NumText.value_string_float (repr f) in
+  parse_number s = Some f -> iso_parse off_utc s = None -> is_empty s = false ->
+  str_eqb s s_null = false -> str_eqb s s_true = false -> str_eqb s s_false = false ->
+  cell_rt off_utc off_local repr TNumber (CNum (NFlt f)).
+Proof. exact cell_rt_num. Qed.
+
+(* ---- date-like text: whatever value_parse_datetime rejects (by C16_parse_rejects_invalid_fields: every well-shaped text with an
+   impossible field, 2024-02-30, 24:00:00, ...) is never typed datetime and never aborts: typed string unless it reads as a boolean / number *)
+Theorem C19_datelike_is_string_partial : forall off_utc s, iso_parse off_utc s = None -> parse_number s = None ->
+  is_empty s = false -> str_eqb s s_null = false -> str_eqb s s_true = false -> str_eqb s s_false = false ->
+  infer_str off_utc s = Some TString.
+Proof. exact datelike_is_string. Qed.
+(* full statement wanted: forall s matching the date / datetime regex with invalid calendar fields, infer_str s = Some TString.  Missing:
+   float(s) fails for every such text (no theorem about py_float on date-shaped text); proved for the sample texts by computation, for every zone *)
+Theorem C19_datelike_samples_are_strings : forall off_utc,
+  forallb (fun s => match infer_str off_utc s with Some TString => true | _ => false end)
+    [U "2024-02-30"; U "2024-13-01"; U "2023-02-29"; U "2024-00-10"; U "0000-01-01"; U "2024-01-01T24:00:00Z"; U "2024-01-01T23:60:00Z";
+     U "2024-02-30T00:00:00Z"; U "2024-01-01T00:00:00+24:00"; U "2024-06-31"] = true.
+Proof. exact datelike_samples_string. Qed.
+Theorem C19_datelike_in_a_table : forall off_utc,
+  validate_data off_utc true [[(U "a", CStr (U "2024-02-30")); (U "b", CStr (U "1"))]; [(U "a", CStr (U "2024-02-28")); (U "b", CStr (U ""))]] =
+    VOk [(U "a", TString); (U "b", TNumber)]
+        [[(U "a", CStr (U "2024-02-30")); (U "b", CNum (NFlt (Z_to_sf 1)))]; [(U "a", CStr (U "2024-02-28")); (U "b", CNull)]] /\
+  validate_data off_utc true [[(U "a", CStr (U "2024-02-28"))]; [(U "a", CStr (U "2024-02-30"))]] = VErr (U "a") TDatetime (CStr (U "2024-02-30")).
+Proof. exact datelike_table. Qed.
+Print Assumptions C19_datelike_in_a_table.
